@@ -50,7 +50,7 @@ class QInteger(QToken):
     def check(string: str):
         token = ""
         for char in string:
-            if char.isdigit():
+            if char.isdecimal():
                 token += char
             else:
                 break
@@ -236,6 +236,8 @@ class QDict(QToken):
         d: Dict[str, QToken] = {}
         while len(entries_str) > 0:
             entries_str = entries_str.strip()
+            if not entries_str:
+                break
             if len(d) > 0 and entries_str[0] == ",":
                 entries_str = entries_str[1:]
             # parse key
@@ -245,7 +247,7 @@ class QDict(QToken):
             key = QString.parse(key_str, {}).value
             entries_str = entries_str.strip()
             # Remove :
-            if entries_str[0] != ":":
+            if not entries_str or entries_str[0] != ":":
                 raise QueryParseException("Key in dict is not followed by a :")
             entries_str = entries_str[1:]
             # parse val
@@ -301,6 +303,8 @@ class QList(QToken):
         ls: List[QToken] = []
         while len(entries_str) > 0:
             entries_str = entries_str.strip()
+            if not entries_str:
+                break
             if len(ls) > 0 and entries_str[0] == ",":
                 entries_str = entries_str[1:]
             # parse
@@ -349,9 +353,9 @@ def _parse_token(string: str, namespace: dict) -> Tuple[Tuple[Any, str], str]:
         raise QueryParseException(
             "Reached unreachable, cannot parse something that isn't a string"
         )
+    string = string.strip()
     if len(string) == 0:
         return (None, ""), string
-    string = string.strip()
     token = None
     t = None  # Declare so we can return it
     for t in qtypes:
@@ -387,6 +391,8 @@ def parse(line, namespace):
     if var_t is not QVariable:
         raise QueryParseException("Cannot assign to a non-variable")
     (val_t, val), var_str = _parse_token(val_str, namespace)
+    if not val_t:
+        raise QueryParseException("Nothing to assign")
     if var_str:  # Didn't consume whole val string
         raise QueryParseException("Invalid syntax for value to assign")
     # Parse token
